@@ -11,6 +11,7 @@ use ironplc_dsl::core::FileId;
 use ironplcc::project::{FileBackedProject, Project};
 use rayon::prelude::*;
 use serde_json::{json, Value};
+use std::collections::BTreeSet;
 use std::path::Path;
 use std::time::Duration;
 
@@ -141,6 +142,55 @@ fn in_process(path: &Path) -> Result<(String, usize), String> {
     }
 }
 
+
+/// (4) text of the size sweep: a comment of `pad` ASCII letters ending in one non-ASCII character,
+/// followed on the same line by a statement with an undeclared variable.
+fn sweep_text(ch: char, pad: usize) -> String {
+    format!("FUNCTION_BLOCK Fb\nVAR a : INT; END_VAR\n(* {}{} *) b := 1;\nEND_FUNCTION_BLOCK\n", "x".repeat(pad), ch)
+}
+
+/// In-process observation of one stored file: (verdict, [(code, line, column in characters)]).
+fn observe_file(path: &Path) -> Result<(bool, Vec<(String, usize, usize)>), String> {
+    let fid = FileId::from_path(path);
+    let r = catch(|| {
+        let mut p = FileBackedProject::new();
+        if let Err(d) = p.push(fid.clone()) {
+            return (false, vec![(format!("unreadable:{}", d.code), 0usize, 0usize)]);
+        }
+        let text = p.get(&fid).map(|s| s.as_string().to_string()).unwrap_or_default();
+        match p.semantic() {
+            Ok(()) => (true, vec![]),
+            Err(ds) => {
+                let mut v: Vec<(String, usize, usize)> = ds
+                    .iter()
+                    .map(|d| {
+                        let s = d.primary.location.start.min(text.len());
+                        let s = (0..=s).rev().find(|i| text.is_char_boundary(*i)).unwrap_or(0);
+                        let before = &text[..s];
+                        let line = before.matches('\n').count() + 1;
+                        let col = before.rsplit('\n').next().unwrap_or("").chars().count() + 1;
+                        (d.code.clone(), line, col)
+                    })
+                    .collect();
+                v.sort();
+                (false, v)
+            }
+        }
+    });
+    r.map_err(|p| format!("panic at {}: {}", p.loc, crate::util::short(&p.msg, 80)))
+}
+
+/// Byte offset at which the non-ASCII character of `sweep_text(ch, pad)` starts in encoding `enc`, and its width there.
+fn sweep_offset(ch: char, pad: usize, enc: &str) -> (usize, usize) {
+    let chars_before = "FUNCTION_BLOCK Fb\nVAR a : INT; END_VAR\n(* ".len() + pad;
+    match enc {
+        "utf8" => (chars_before, ch.len_utf8()),
+        "utf8-bom" => (3 + chars_before, ch.len_utf8()),
+        "utf16le-bom" | "utf16be-bom" => (2 + 2 * chars_before, 2 * ch.len_utf16()),
+        _ => (chars_before, 1),
+    }
+}
+
 fn contexts(byte: u8) -> Vec<(&'static str, Vec<u8>)> {
     let mk = |pre: &str, post: &str| {
         let mut v = pre.as_bytes().to_vec();
@@ -159,7 +209,7 @@ fn contexts(byte: u8) -> Vec<(&'static str, Vec<u8>)> {
 
 pub fn run(ctx: &mut Ctx) {
     let thorough = ctx.tier.thorough();
-    ctx.rule = "(1) 12 programs with non-ASCII text in comments and strings (valid and with a fault after the non-ASCII text, same line and later line) x 5 encodings through `ironplcc check` and `tokenize`; (2) every byte 0x00-0xFF x 4 contexts through the binary and in-process; (3) all 1-byte files (thorough: all 2-byte files) in-process and BOM-prefixed ones through the binary; distinct = distinct file contents".into();
+    ctx.rule = "(1) 12 programs with non-ASCII text in comments and strings (valid and with a fault after the non-ASCII text, same line and later line) x 5 encodings through `ironplcc check` and `tokenize`; (2) every byte 0x00-0xFF x 4 contexts through the binary and in-process; (3) all 1-byte files (thorough: all 2-byte files) in-process and BOM-prefixed ones through the binary; (4) size sweep: a 2-, 3- or 4-byte character at every offset of a file growing to 2.2 k (thorough 9 k) characters and straddling every power of two from 4 KiB to 64 KiB in each encoding, in-process and a subset through the binary; distinct = distinct file contents".into();
     ctx.assumptions.push("all non-ASCII characters used in (1) exist in Windows-1252 and their Windows-1252 bytes are not valid UTF-8 (asserted), so the intended decoding is unambiguous".into());
     ctx.assumptions.push("positions are compared as printed by the binary (line:column of the first location block)".into());
     ctx.bounds.insert("encodings".into(), json!(ENCODINGS));
@@ -437,7 +487,129 @@ pub fn run(ctx: &mut Ctx) {
             ctx.fail(&format!("crash/short-file/{}", classify_short(bytes)), &format!("binary crashed on bytes {:?}: {}", bytes, summary), json!({"mode":"bytes","bytes":bytes}));
         }
     }
-    ctx.states = (jobs.len() + byte_jobs.len() + short.len()) as u64;
+    // ---- (4) size sweep: one non-ASCII character at every byte offset of a growing file, and straddling
+    // every power-of-two offset up to 64 KiB in every encoding (block-wise reading / sniffing must not show)
+    let limit = if thorough { 9000 } else { 2200 };
+    let chars: [(char, &str); 3] = [('\u{e9}', "two-byte"), ('\u{20ac}', "three-byte"), ('\u{1F600}', "four-byte")];
+    let mut sweep: BTreeSet<(usize, usize)> = BTreeSet::new(); // (character index, pad)
+    for (ci, _) in chars.iter().enumerate() {
+        for pad in 0..limit {
+            sweep.insert((ci, pad));
+        }
+    }
+    let mut boundaries = vec![];
+    let mut bsz = 4096usize;
+    while bsz <= 65536 {
+        boundaries.push(bsz);
+        bsz *= 2;
+    }
+    for (ci, (ch, _)) in chars.iter().enumerate() {
+        for b in &boundaries {
+            for enc in ENCODINGS {
+                let (off0, w) = sweep_offset(*ch, 0, enc);
+                if w < 2 {
+                    continue;
+                }
+                let unit = sweep_offset(*ch, 1, enc).0 - off0;
+                // every start offset that makes the character straddle the boundary, plus the aligned neighbours
+                for start in (b + 1 - w)..=*b {
+                    if start >= off0 && (start - off0) % unit == 0 {
+                        sweep.insert((ci, (start - off0) / unit));
+                    }
+                }
+            }
+        }
+    }
+    let sweep: Vec<(usize, usize)> = sweep.into_iter().collect();
+    ctx.bounds.insert("size_sweep".into(), json!(format!("{} texts: 3 character widths x every pad 0..{} + characters straddling 4096…65536 in each encoding; each text in every encoding that can hold it", sweep.len(), limit)));
+    let sweep_dir = scratch.sub("sweep");
+    let sweep_results: Vec<(usize, usize, Vec<(&str, Result<(bool, Vec<(String, usize, usize)>), String>)>)> = sweep
+        .par_iter()
+        .enumerate()
+        .map(|(n, (ci, pad))| {
+            let ch = chars[*ci].0;
+            let text = sweep_text(ch, *pad);
+            let mut per = vec![];
+            for enc in ENCODINGS {
+                if enc == "windows-1252" && cp1252_byte(ch).is_none() {
+                    continue;
+                }
+                let path = sweep_dir.join(format!("w{}-{}.st", n, enc));
+                std::fs::write(&path, encode(&text, enc)).unwrap();
+                per.push((enc, observe_file(&path)));
+                let _ = std::fs::remove_file(&path);
+            }
+            (*ci, *pad, per)
+        })
+        .collect();
+    let expected_col = |pad: usize| 3 + pad + 1 + 3 + 1 + 1; // 1-based column of b after "(* " pad ch " *)" " "
+    for (ci, pad, per) in &sweep_results {
+        let base = &per[0].1;
+        for (enc, r) in per {
+            ctx.evaluations += 1;
+            ctx.transitions += 1;
+            let replay = json!({"mode":"sweep","character":chars[*ci].0.to_string(),"pad":pad,"encoding":enc});
+            match r {
+                Err(e) => ctx.fail(&format!("size-sweep/crash/{}/{}", enc, chars[*ci].1), &format!("pad {}: {}", pad, e), replay),
+                Ok(o) => {
+                    if Ok(o) != base.as_ref() {
+                        let (off, w) = sweep_offset(chars[*ci].0, *pad, enc);
+                        ctx.fail(
+                            &format!("size-sweep/result-differs-from-utf8/{}/{}", enc, chars[*ci].1),
+                            &format!("the {} character at byte offset {}..{} of the {} file (pad {}): utf8 gives {:?}, {} gives {:?}", chars[*ci].1, off, off + w, enc, pad, base, enc, o),
+                            replay,
+                        );
+                    } else if *enc == "utf8" && *o != (false, vec![("P0015".to_string(), 3, expected_col(*pad))]) {
+                        ctx.fail(
+                            &format!("size-sweep/unexpected-result/{}", chars[*ci].1),
+                            &format!("pad {}: expected P0015 at 3:{}, observed {:?}", pad, expected_col(*pad), o),
+                            replay,
+                        );
+                    }
+                }
+            }
+        }
+        ctx.distinct(&format!("sweep|{}|{}", ci, pad));
+    }
+    ctx.outcome_n("size sweep text: same result in every encoding", sweep_results.len() as u64);
+    // the straddling texts and a coarse subset of the sweep through the binary
+    let bin_sweep: Vec<&(usize, usize)> = sweep.iter().filter(|(_, pad)| *pad >= limit || (*pad >= 900 && *pad <= 1100 && pad % 7 == 0) || (1022 - 44..=1026 - 40).contains(pad) || (2046 - 44..=2050 - 40).contains(pad)).collect();
+    let bin_sweep_results: Vec<(usize, usize, Vec<(&str, Outcome)>)> = bin_sweep
+        .par_iter()
+        .enumerate()
+        .map(|(n, (ci, pad))| {
+            let ch = chars[*ci].0;
+            let text = sweep_text(ch, *pad);
+            let mut per = vec![];
+            for enc in ENCODINGS {
+                if enc == "windows-1252" && cp1252_byte(ch).is_none() {
+                    continue;
+                }
+                let dir = scratch.sub(&format!("bsw{}-{}", n, enc));
+                let tmp = scratch.sub(&format!("bswt{}-{}", n, enc));
+                let path = dir.join("prog.st");
+                std::fs::write(&path, encode(&text, enc)).unwrap();
+                per.push((enc, outcome(&cli::run(&["check", path.to_str().unwrap()], &tmp, Duration::from_secs(30)))));
+                let _ = std::fs::remove_dir_all(&dir);
+            }
+            (*ci, *pad, per)
+        })
+        .collect();
+    for (ci, pad, per) in &bin_sweep_results {
+        let base = &per[0].1;
+        for (enc, o) in per {
+            ctx.evaluations += 1;
+            ctx.traces += 1;
+            if o != base || o.crashed {
+                ctx.fail(
+                    &format!("size-sweep/binary-result-differs-from-utf8/{}/{}", enc, chars[*ci].1),
+                    &format!("pad {}: `check` in utf8 gives {:?}, in {} gives {:?}", pad, base, enc, o),
+                    json!({"mode":"sweep","character":chars[*ci].0.to_string(),"pad":pad,"encoding":enc}),
+                );
+            }
+        }
+    }
+    ctx.states = (jobs.len() + byte_jobs.len() + short.len() + sweep.len()) as u64;
 }
 
 fn classify_short(b: &[u8]) -> String {
@@ -494,6 +666,21 @@ pub fn replay(case: &Value) -> Result<String, String> {
                 Err(format!("crashed: {}", c.summary()))
             } else {
                 Ok(c.summary())
+            }
+        }
+        Some("sweep") => {
+            let ch = case["character"].as_str().and_then(|c| c.chars().next()).ok_or("character")?;
+            let pad = case["pad"].as_u64().ok_or("pad")? as usize;
+            let enc = case["encoding"].as_str().ok_or("encoding")?;
+            let text = sweep_text(ch, pad);
+            std::fs::write(&path, encode(&text, "utf8")).unwrap();
+            let base = observe_file(&path)?;
+            std::fs::write(&path, encode(&text, enc)).unwrap();
+            let other = observe_file(&path)?;
+            if base == other {
+                Ok(format!("same result in utf8 and {}: {:?}", enc, base))
+            } else {
+                Err(format!("utf8 {:?} vs {} {:?}", base, enc, other))
             }
         }
         _ => Err("unknown replay mode".into()),
